@@ -330,6 +330,56 @@ func runC13(c *eng.Ctx) {
 				fn, isF := eng.CalleeOf(info, cl).(*types.Func)
 				return isF && reachesJSONDecode(p, fn, 2)
 			}
+			// the same conversion written once for a list of field addresses:
+			//   for _, pf := range []*any{&doc.Object, ...} { v, err := conv(*pf); ...; *pf = v }
+			var ptrLoopHeads []func(*eng.GNode) bool
+			for _, el := range elemLoopsOver(info, f.Decl.Body, func(ast.Expr) bool { return true }) {
+				lit, isLit := ast.Unparen(resolveLocal(info, f.Decl.Body, el.Base)).(*ast.CompositeLit)
+				if !isLit {
+					continue
+				}
+				has := false
+				for _, e := range lit.Elts {
+					if u, isU := ast.Unparen(e).(*ast.UnaryExpr); isU && u.Op == token.AND && eng.IsField(info, u.X, fld) {
+						has = true
+					}
+				}
+				if !has {
+					continue
+				}
+				el := el
+				deref := func(e ast.Expr) bool {
+					st, isStar := ast.Unparen(e).(*ast.StarExpr)
+					return isStar && el.IsElem(st.X)
+				}
+				storesConverted := func(n *eng.GNode) bool {
+					as, ok := n.Node.(*ast.AssignStmt)
+					if !ok || len(as.Lhs) != 1 || len(as.Rhs) != 1 || !deref(as.Lhs[0]) {
+						return false
+					}
+					cl, isC := ast.Unparen(resolveLocal(info, el.Body, as.Rhs[0])).(*ast.CallExpr)
+					if !isC || len(cl.Args) < 1 || !deref(cl.Args[0]) {
+						return false
+					}
+					fn, isF := eng.CalleeOf(info, cl).(*types.Func)
+					return isF && reachesJSONDecode(p, fn, 2)
+				}
+				if loopIterMustPassBefore(g, el.Stmt, storesConverted, func(n *eng.GNode) bool { return n == app }) {
+					ptrLoopHeads = append(ptrLoopHeads, isLoopHeadOf(el.Stmt))
+				}
+			}
+			direct := normalises
+			normalises = func(n *eng.GNode) bool {
+				if direct(n) {
+					return true
+				}
+				for _, h := range ptrLoopHeads {
+					if h(n) {
+						return true
+					}
+				}
+				return false
+			}
 			r7.Check(app != nil && g.OnlyVia(app, normalises, nil), f.Key+" "+fldName, f.Decl.Pos(), "normalised to JSON value types before the append", "the YAML decoder's value for `"+strings.ToLower(fldName[:1])+fldName[1:]+"` is appended as yaml.v3 produced it (integers are int): unstructured objects cannot deep-copy them, CreateOrUpdate of an existing object panics for the YAML spelling of a document that works as JSON")
 		}
 	}
